@@ -297,3 +297,23 @@ def guards(b, bb, doms=None):
         elif len(taken) == 1:
             out.append((d, t['op'], taken[0]))
     return out
+
+
+def char_const(op):
+    """scalar value of a `char` constant operand (the driver prints it as text only: const 'x', const '\\n', const '\\u{e9}')"""
+    if op.get('k') != 'const' or op.get('ty') != 'char':
+        return None
+    if op.get('val') is not None:
+        return op['val']
+    import re as _re
+    m = _re.match(r"^const '(.*)'$", (op.get('text') or '').strip(), _re.S)
+    if not m:
+        return None
+    c = m.group(1)
+    if len(c) == 1:
+        return ord(c)
+    esc = {'\\n': 10, '\\r': 13, '\\t': 9, '\\\\': 92, "\\'": 39, '\\"': 34, '\\0': 0}
+    if c in esc:
+        return esc[c]
+    m = _re.match(r'^\\u\{([0-9a-fA-F]+)\}$', c)
+    return int(m.group(1), 16) if m else None
